@@ -1290,6 +1290,9 @@ class SSHConnection(SSHPacketHandler, asyncio.Protocol):
         """Validate an OpenSSH host certificate"""
 
         if self._trusted_ca_keys is not None:
+            if cert.key in self._revoked_host_keys:
+                raise ValueError('Host key is revoked')
+
             if cert.signing_key in self._revoked_host_keys:
                 raise ValueError('Host CA key is revoked')
 
